@@ -31,6 +31,14 @@ def gen_cases(tier, seed):
             hb = {"nodes": hn, "edges": he, "flow": {e: (float(v) if wt_ == "float" else v) for e, v in hf.items()}, "planted": [], "wt": wt_, "mode": "edge"}
             sup_ = [f_ + 1, f_ + 1] if wt_ == "int" else [f_ + 1.0, f_ + 1.0]
             cases.append({"cyc": False, "mode": "edge", "wt": wt_, "k": 2, "ignore": [], "scale": [], "starts": [], "ends": [], "superset": sup_, "planted": [], "spec": I.spec_of(hb)})
+    # corpus: two instances on which HiGHS with presolve goes wrong (known findings, classified by re-solving with presolve off)
+    hn = {"v3": 3, "v4": 13, "v0": 13, "v2": 3, "v5": 3, "v1": 8, "v6": 2, "v7": 5}
+    he2 = [("v3", "v4"), ("v3", "v5"), ("v3", "v6"), ("v3", "v7"), ("v0", "v3"), ("v0", "v1"), ("v2", "v5"), ("v2", "v3"), ("v1", "v2"), ("v1", "v5")]
+    cases.append({"cyc": False, "mode": "node", "wt": "float", "k": 2, "ignore": [], "scale": [], "starts": ["v1", "v7"], "ends": [], "superset": None, "planted": [],
+                  "spec": gen.spec(list(hn), he2, nattr={v: {"flow": float(f)} for v, f in hn.items()})})
+    ce = [("s", "a", 3.0), ("a", "t", 3.0), ("s", "c", 0.5), ("c", "d", 0.5), ("d", "c", 0.5), ("d", "t", 0.5)]
+    cases.append({"cyc": True, "mode": "edge", "wt": "float", "k": 1, "ignore": [], "scale": [], "starts": [], "ends": [], "superset": None, "planted": [],
+                  "spec": gen.spec(["s", "a", "t", "c", "d"], [(u, v) for u, v, _ in ce], eattr={(u, v): {"flow": f} for u, v, f in ce})})
     n = 300 if tier == "quick" else 3500
     for i in range(n):
         rng = gen.rng_for("C07", seed, i)
@@ -135,7 +143,10 @@ def run_one(cls, case, k, viol, obs, desc, tagstr):
         viol.append({"sig": f"C07/{cls}/{res['stage']}-raises/{res['exc'][0]}{tagstr}", "msg": f"{res['exc']}; k={k}; {desc}"})
         return None
     if not res["solved"]:
-        viol.append({"sig": f"C07/{cls}/unsolved{tagstr}", "msg": f"k={k} status={res.get('status')}; {desc}"})
+        # classify: solved as soon as HiGHS' presolve is switched off => the solver (trusted base) wrongly declared the model infeasible
+        r2 = models.run(inst, solver_options=dict(SO, presolve="off"))
+        mech = "/solver-presolve-declares-feasible-model-infeasible" if r2.get("solved") else tagstr
+        viol.append({"sig": f"C07/{cls}/unsolved{mech}", "msg": f"k={k} status={res.get('status')}; {desc}"})
         return None
     return res
 
@@ -216,7 +227,12 @@ def run_case(case):
                 obs["c07.dag_optimum_compared"] += 1
                 sample["reference"] = float(best)
                 if not models.num_close(rec_obj, float(best)):
-                    viol.append({"sig": f"C07/{cls}/" + ("not-optimal" if rec_obj > float(best) else "below-exhaustive-reference") + tagstr, "msg": f"recomputed objective {rec_obj}, exact optimum {best} over {len(cols)} paths; {desc}"})
+                    mech = tagstr
+                    if rec_obj > float(best):
+                        r2 = models.run({"cls": cls, "spec": case["spec"], "kw": build_kw(case, k)}, solver_options=dict(SO, presolve="off"))
+                        if r2.get("solved") and models.num_close(float(r2.get("obj") if r2.get("obj") is not None else 1e99), float(best)):
+                            mech = "/solver-presolve-loses-the-optimum"; case = dict(case, superset=[])      # (no differential run on top of it: same cause)
+                    viol.append({"sig": f"C07/{cls}/" + ("not-optimal" if rec_obj > float(best) else "below-exhaustive-reference") + mech, "msg": f"recomputed objective {rec_obj}, exact optimum {best} over {len(cols)} paths; {desc}"})
                 # differential: the walk model on the same acyclic input
                 if case["superset"] is None:
                     r2 = run_one("kLeastAbsErrorsCycles", case, k, viol, obs, desc, tagstr + "/differential")
